@@ -4,6 +4,7 @@ import (
 	"encoding/json"
 	"fmt"
 	"os"
+	"path/filepath"
 	"sort"
 	"strings"
 	"sync"
@@ -54,6 +55,41 @@ func (e *excluder) knownKey(kind, class, pos string) string {
 	}
 	e.cache[ck] = found
 	return found
+}
+
+// ---------------------------------------------------------------- crash marker
+
+// markCurrent does what pbt.MarkCurrent does (same file, same content) but keeps
+// the file open: a history is only known step by step, so the marker is rewritten
+// before every API call, and open/close per call made the check 7x slower.
+var marker struct {
+	once sync.Once
+	f    *os.File
+}
+
+func markCurrent(v any) {
+	dir := os.Getenv("VERIF_STATS_DIR")
+	if dir == "" {
+		return
+	}
+	marker.once.Do(func() {
+		_ = os.MkdirAll(dir, 0o755)
+		f, err := os.OpenFile(filepath.Join(dir, "current-C14."+pbt.Env("VERIF_SHARD", "0")+".json"), os.O_CREATE|os.O_WRONLY|os.O_TRUNC, 0o644)
+		if err == nil {
+			marker.f = f
+		}
+	})
+	if marker.f == nil {
+		pbt.MarkCurrent("C14", v)
+		return
+	}
+	b, err := json.Marshal(map[string]any{"property": "C14", "case": v})
+	if err != nil {
+		return
+	}
+	if _, err := marker.f.WriteAt(b, 0); err == nil {
+		_ = marker.f.Truncate(int64(len(b)))
+	}
 }
 
 // ---------------------------------------------------------------- collect mode
@@ -177,6 +213,16 @@ func newMachine(setup Setup, st *pbt.Stats, excl *excluder) (*machine, error) {
 	for _, p := range v.Pipelines {
 		m.names[p.Name] = true
 	}
+	// The file-provisioned entities were written through the services, not the
+	// API. If that alone leaves memory, store and references inconsistent, no API
+	// call is to blame: the case is inconclusive, not a finding.
+	if rl, err := m.w.reload(); err != nil {
+		m.harness, m.done = fmt.Sprintf("reload after set-up failed: %v", err), true
+	} else if d := diffViews(v, snapshot(m.w.ctx, rl, nil), diffOpts{reload: true}); !d.empty() {
+		m.harness, m.done = "memory != reload right after the set-up: "+d.String(), true
+	} else if probs := checkRefs(v); len(probs) > 0 {
+		m.harness, m.done = "set-up leaves references inconsistent: "+probs[0].detail, true
+	}
 	for _, n := range namePool {
 		m.names[n] = true
 	}
@@ -262,7 +308,7 @@ func (m *machine) step(op Op) []violation {
 		}
 	}
 	m.ops = append(m.ops, op)
-	pbt.MarkCurrent("C14", m.replayValue())
+	markCurrent(m.replayValue())
 	res := m.execAPI(op)
 	m.classes["op:"+op.Kind] = true
 	m.classes["class:"+res.class] = true
@@ -277,6 +323,9 @@ func (m *machine) step(op Op) []violation {
 	}
 	if res.panicked {
 		m.classes["panic"] = true
+	}
+	if res.trait != "" {
+		m.classes[res.trait] = true
 	}
 	if res.err != nil {
 		m.classes["outcome:error"] = true
@@ -332,7 +381,7 @@ func genSetup(t *rapid.T) Setup {
 
 func genTarget(t *rapid.T, op *Op) {
 	op.Target = rapid.IntRange(0, 5).Draw(t, "target")
-	op.Pref = rapid.SampledFrom([]string{"", "api-idle", "api-idle", "api-idle", "api-idle", "running", "config"}).Draw(t, "pref")
+	op.Pref = rapid.SampledFrom([]string{"", "api-idle", "api-idle", "api-idle", "api-idle", "running", "running", "config"}).Draw(t, "pref")
 	switch rapid.IntRange(0, 19).Draw(t, "targetClass") {
 	case 0:
 		op.Target = -1
@@ -474,7 +523,7 @@ var actionWeights = map[string]int{
 	kPlCreate: 3, kPlUpdate: 2, kPlUpdateDLQ: 2, kPlDelete: 1, kPlStart: 1, kPlStop: 1,
 	kConnCreate: 3, kConnUpdate: 2, kConnDelete: 2,
 	kProcCreatePl: 2, kProcCreateCn: 2, kProcUpdate: 2, kProcDelete: 2,
-	kSimStart: 1, kSimStop: 1, kSimRan: 1, kSimRestart: 1,
+	kSimStart: 2, kSimStop: 1, kSimRan: 1, kSimRestart: 1,
 }
 
 // ---------------------------------------------------------------- the property
@@ -513,6 +562,11 @@ func TestC14(t *testing.T) {
 				if coll != nil {
 					coll.add(v, rp)
 					continue
+				}
+				if !st.IsKnown(v.Key) {
+					// rapid shrinks the draws; on top of that drop every recorded
+					// step that is not needed to reproduce this key
+					rp = minimise(v.Key, m.replayValue())
 				}
 				if st.Report(v.Key, v.Detail, rp.size(), rp) && fatal == "" {
 					fatal = v.Key + ": " + v.Detail
@@ -573,7 +627,7 @@ func finishCase(st *pbt.Stats, m *machine) {
 		cls = append(cls, "with-file-provisioned-entities")
 	}
 	if len(m.violations) > 0 {
-		cls = append(cls, "ended-by-violation")
+		cls = append(cls, "had-violation")
 	}
 	nt := m.nontrivial()
 	st.Case(pbt.Hash(rp), nt, cls...)
